@@ -94,9 +94,6 @@ def gen_cases(rng, n, quick):
                 continue
             if kind == "timed" and not (ops_of(phi) & set(TIMED_P)):
                 continue
-            # binary nodes over constants only are known finding F-05b: keep them rare
-            if any(q["op"] in BIN2 and not vars_of(q) for q in subformulas(phi)) and rng.random() < 0.9:
-                continue
             break
         else:
             continue
@@ -105,7 +102,8 @@ def gen_cases(rng, n, quick):
             continue
         vs = vars_of(phi)
         end = rng.choice([3, 4, 6, 8])
-        w = {v: gen_signal(rng, rng.choice([2, 3, 4, 5]), t0=0, S=S, end=end) for v in vs}
+        t0 = rng.choice([0, 0, 0, 0, 1, 2])      # first time-stamps > 0: F-05c for bounded operators with begin > 0
+        w = {v: gen_signal(rng, rng.choice([2, 3, 4, 5]), t0=t0, S=S, end=end + t0) for v in vs}
         allsp = {v: splits(len(w[v])) for v in vs}
         scheds = [{v: [(0, len(w[v]))] for v in vs},                              # everything at once
                   {v: [(k, k + 1) for k in range(len(w[v]))] for v in vs}]        # one sample at a time
